@@ -8,7 +8,7 @@
     per pass). *)
 From Coq Require Import List Ascii String ZArith NArith Bool.
 From Shexer Require Import Lib.PyStr Lib.Dict Gen.Consts Spec.Rdf Model.Tracker Model.Profiler
-     Model.Freq Model.FreqInst Model.SerialShexc Model.Run Model.Channels Spec.ChannelSpec Proofs.ChannelProofs.
+     Model.Freq Model.FreqInst Model.SerialShexc Model.Run Model.RunCur Model.Channels Spec.ChannelSpec Proofs.ChannelProofs.
 From Coq Require Import Permutation.
 From Shexer Require Import Spec.Counts Proofs.EndToEnd Proofs.ChannelCompose.
 Import ListNotations.
@@ -99,7 +99,13 @@ Print Assumptions C08_partition_invisible_tsv.
     Line-based channels (nt, tsv_spo, turtle_iter over a raw string, a file,
     several files, compressed or not): whatever rdflib's choices [o1], [o2]
     would be on the two passes, both passes deliver the same result, so the
-    single-graph form [Run.run_shapes] applies ([run_shapes2_same]). *)
+    single-graph form applies ([run_shapes2_same]): [RunCur.run_shapes_cur], i.e.
+    [Run.run_shapes] with the shexing stage in the order the code has
+    ([ShexingFix.shex_cur], as in [Channels.run_shapes2]); it IS [Run.run_shapes]
+    where the order of ClassShexer's stages is irrelevant
+    ([C08_same_stream_single_graph_modelled]; Props/ShexStage.v:
+    [E2E_class_mode_order_irrelevant]).  With two different streams it is not
+    ([C08_two_streams_order_refuted]). *)
 Theorem C08_both_passes_same :
   forall pyfloat read_nt read_ttl gunzip unxz unzip rdf_parse (o1 o2 : porc) fmt cm src,
     line_fmt fmt -> In cm documented_compressions -> local_source src ->
@@ -111,9 +117,55 @@ Qed.
 Print Assumptions C08_both_passes_same.
 
 Theorem C08_same_stream_single_graph :
-  forall fa c thr g, run_shapes2 fa c thr g g = run_shapes fa c thr g.
+  forall fa c thr g, run_shapes2 fa c thr g g = run_shapes_cur fa c thr g.
 Proof. exact run_shapes2_same. Qed.
 Print Assumptions C08_same_stream_single_graph.
+
+From Shexer Require Proofs.OrderIrrelevant Proofs.Bin64Round Proofs.EndToEnd2.
+
+(** the modelled single-graph run, on the domain where the stage order is
+    irrelevant: remove_empty_shapes off, or no class of the profile empty at the
+    threshold ([order_dom], computed from the input; it holds for thresholds in
+    [0, 1] when no class IRI starts with '%' or "@": [class_order_dom_b_sound]) *)
+Theorem C08_same_stream_single_graph_modelled :
+  forall fa c thr g, OrderIrrelevant.order_dom fa c thr g = true ->
+    run_shapes2 fa c thr g g = run_shapes fa c thr g.
+Proof. intros fa c thr g H. rewrite run_shapes2_same. exact (OrderIrrelevant.run_shapes_cur_eq fa c thr g H). Qed.
+Print Assumptions C08_same_stream_single_graph_modelled.
+
+(** Why [Channels.run_shapes2] follows the flag: an rdflib channel re-labels
+    blank nodes on every pass, so a blank-node instance has no features in the
+    feature pass.  C0 has two instances (_:b and n1) and only n1 has its typing
+    constraint there: [rdf:type [C0]] at 1/2 < 51/100, C0 is EMPTY although it has
+    instances, and D references it ([p @:C0]).  The code (new order, a3b99df)
+    drops the reference before the merge and keeps [p IRI]; the old order
+    ([OrderIrrelevant.run_shexc2_old]) deletes the constraint.  Minimal form of
+    the input a correspondence run found (work/replays/C08-viol-5e127f3f4108.json). *)
+Definition g_two_inst : graph :=
+  [ T (Node KBnode (Str "_:b")) c_RDF_TYPE (ON (Node KIri (Str "http://e/C0")));
+    T (Node KIri (Str "http://e/n1")) c_RDF_TYPE (ON (Node KIri (Str "http://e/C0")));
+    T (Node KIri (Str "http://e/s")) c_RDF_TYPE (ON (Node KIri (Str "http://e/D")));
+    T (Node KIri (Str "http://e/s")) (Str "http://e/p") (ON (Node KIri (Str "http://e/n1"))) ].
+
+Definition two_cfg : rcfg :=
+  {| r_tau := c_RDF_TYPE; r_targets := None; r_ns := []; r_shapes_ns := c_SHAPES_DEFAULT_NAMESPACE; r_cap := (-1)%Z;
+     r_inverse := false; r_remove_empty := true; r_discard_useless := true; r_keep_less_specific := true;
+     r_all_compliant := true; r_disable_or := true; r_allow_redundant_or := false; r_allow_opt := true;
+     r_disable_exact := false; r_disable_comments := false; r_mode := FAbs |}.
+
+Lemma C08_two_streams_order_refuted :
+  c_clean_before_merge = true ->
+  exists c thr g f1 f2,
+    Bin64Round.wf_frac thr /\ fle BAlg thr (fone BAlg) = true /\ EndToEnd2.class_iris_ok c g = true /\
+    exists t1 t2, run_shexc2 BAlg c thr (rename f1 g) (rename f2 g) = inl t1 /\
+                  OrderIrrelevant.run_shexc2_old BAlg c thr (rename f1 g) (rename f2 g) = inl t2 /\ t1 <> t2.
+Proof.
+  intros E; first [ vm_compute in E; discriminate E |
+    exists two_cfg, (b_ratio 51 100), g_two_inst, (fun s => s ++ Str "1"), (fun s => s ++ Str "2");
+    split; [vm_compute; split; [discriminate | reflexivity]|]; split; [vm_compute; reflexivity|];
+    split; [vm_compute; reflexivity|];
+    do 2 eexists; split; [vm_compute; reflexivity|]; split; [vm_compute; reflexivity|]; discriminate ].
+Qed.
 
 (** rdflib channels deliver [rename f1 g1] to the instance pass and
     [rename f2 g2] to the feature pass ([g1], [g2] permutations of the graph,
@@ -332,7 +384,7 @@ Theorem C08_channel_independent_lines :
                        (SRaw (render_lines (List.concat lss)))) = inl ms ->
     graph_of_m ms = Some G ->
     run_over_passes fa c thr (passes pyfloat read_nt read_ttl gunzip unxz unzip rdf_parse o1 o2 fmt cm (SFiles stored))
-    = Some (run_shapes fa c thr G).
+    = Some (run_shapes_cur fa c thr G).
 Proof. exact channel_independent_files. Qed.
 Print Assumptions C08_channel_independent_lines.
 
@@ -343,7 +395,7 @@ Theorem C08_tsv_channel_independent :
     List.concat lss = map tsv_line_of g -> cm_plain cm ->
     Forall2 (stored_as gunzip unxz cm) (map render_lines lss) stored ->
     run_over_passes fa c thr (passes pyfloat read_nt read_ttl gunzip unxz unzip rdf_parse o1 o2 (Str "tsv_spo") cm (SFiles stored))
-    = Some (run_shapes fa c thr (kinded g)).
+    = Some (run_shapes_cur fa c thr (kinded g)).
 Proof. exact tsv_channel_independent. Qed.
 Print Assumptions C08_tsv_channel_independent.
 
@@ -540,7 +592,7 @@ Theorem C08_nt_text_to_graph :
                      NtDom.C06_dom (fst x) (snd x) = true) ts ->
     run_over_passes fa c thr (passes pyfloat (nt_reader allow) read_ttl gunzip unxz unzip rdf_parse o1 o2
                                      (Str "nt") None (SRaw (NtSyntax.nt_doc ts)))
-    = Some (run_shapes fa c thr (nt_graph ts)).
+    = Some (run_shapes_cur fa c thr (nt_graph ts)).
 Proof. exact nt_text_to_graph. Qed.
 Print Assumptions C08_nt_text_to_graph.
 
@@ -553,16 +605,16 @@ Theorem C08_nt_text_channel_independent :
     (forall cm lss stored,
         List.concat lss = nt_lines ts -> cm_plain cm ->
         Forall2 (stored_as gunzip unxz cm) (map render_lines lss) stored ->
-        run_over_passes fa c thr (P o1 o2 (Str "nt") cm (SFiles stored)) = Some (run_shapes fa c thr (nt_graph ts))) /\
+        run_over_passes fa c thr (P o1 o2 (Str "nt") cm (SFiles stored)) = Some (run_shapes_cur fa c thr (nt_graph ts))) /\
     (forall cm st,
         cm_plain cm -> stored_as gunzip unxz cm (render_lines (nt_lines ts)) st ->
-        run_over_passes fa c thr (P o1 o2 (Str "nt") cm (SFile st)) = Some (run_shapes fa c thr (nt_graph ts))) /\
+        run_over_passes fa c thr (P o1 o2 (Str "nt") cm (SFile st)) = Some (run_shapes_cur fa c thr (nt_graph ts))) /\
     (forall archive lss,
         List.concat lss = nt_lines ts -> archive_holds unzip archive lss ->
-        run_over_passes fa c thr (P o1 o2 (Str "nt") (Some c_ZIP) (SFile archive)) = Some (run_shapes fa c thr (nt_graph ts))) /\
+        run_over_passes fa c thr (P o1 o2 (Str "nt") (Some c_ZIP) (SFile archive)) = Some (run_shapes_cur fa c thr (nt_graph ts))) /\
     (forall archives lsss,
         List.concat (List.concat lsss) = nt_lines ts -> Forall2 (archive_holds unzip) archives lsss ->
-        run_over_passes fa c thr (P o1 o2 (Str "nt") (Some c_ZIP) (SFiles archives)) = Some (run_shapes fa c thr (nt_graph ts))).
+        run_over_passes fa c thr (P o1 o2 (Str "nt") (Some c_ZIP) (SFiles archives)) = Some (run_shapes_cur fa c thr (nt_graph ts))).
 Proof. exact nt_text_channel_independent. Qed.
 Print Assumptions C08_nt_text_channel_independent.
 
@@ -571,7 +623,7 @@ Theorem C08_tsv_text_to_graph :
   forall pyfloat read_ttl gunzip unxz unzip rdf_parse fa read_nt c thr (o1 o2 : porc) g,
     tsv_dom g = true -> Forall line_ok (map tsv_line_of g) ->
     run_over_passes fa c thr (passes pyfloat read_nt read_ttl gunzip unxz unzip rdf_parse o1 o2 (Str "tsv_spo") None (SRaw (tsv_doc g)))
-    = Some (run_shapes fa c thr (kinded g)).
+    = Some (run_shapes_cur fa c thr (kinded g)).
 Proof. exact tsv_text_to_graph. Qed.
 Print Assumptions C08_tsv_text_to_graph.
 
@@ -580,7 +632,7 @@ Theorem C08_tsv_file_to_graph :
     tsv_dom g = true -> Forall line_ok (map tsv_line_of g) -> cm_plain cm ->
     stored_as gunzip unxz cm (tsv_doc g) st ->
     run_over_passes fa c thr (passes pyfloat read_nt read_ttl gunzip unxz unzip rdf_parse o1 o2 (Str "tsv_spo") cm (SFile st))
-    = Some (run_shapes fa c thr (kinded g)).
+    = Some (run_shapes_cur fa c thr (kinded g)).
 Proof. exact tsv_file_to_graph. Qed.
 Print Assumptions C08_tsv_file_to_graph.
 
@@ -600,7 +652,7 @@ Theorem C08_turtle_iter_text_to_graph :
     TtlSyntax.lays_out ls d -> TtlDomain.C07_dom ls d = true -> TtlSyntax.sem d = Some ts ->
     run_over_passes fa c thr (passes pyfloat read_nt ttl_reader gunzip unxz unzip rdf_parse o1 o2
                                      (Str "turtle_iter") None (SRaw (TtlSyntax.render_doc ls)))
-    = Some (run_shapes fa c thr ts).
+    = Some (run_shapes_cur fa c thr ts).
 Proof. exact turtle_iter_text_to_graph. Qed.
 Print Assumptions C08_turtle_iter_text_to_graph.
 
@@ -621,7 +673,7 @@ Theorem C08_turtle_iter_file_to_graph :
     cm_plain cm -> Forall line_ok (ttl_text_lines ls) ->
     stored_as gunzip unxz cm (render_lines (ttl_text_lines ls)) st ->
     run_over_passes fa c thr (passes pyfloat read_nt ttl_reader gunzip unxz unzip rdf_parse o1 o2 (Str "turtle_iter") cm (SFile st))
-    = Some (run_shapes fa c thr ts).
+    = Some (run_shapes_cur fa c thr ts).
 Proof. exact turtle_iter_file_to_graph. Qed.
 Print Assumptions C08_turtle_iter_file_to_graph.
 
@@ -720,10 +772,10 @@ Definition shapes_found (r : option ((Tokens.nsdict * list Shexing.shape) + rerr
 Example C08_nt_text_inhabited :
   Forall nt_ok_case nt_ex /\ Forall line_ok (nt_lines nt_ex) /\ List.concat nt_lss = nt_lines nt_ex
   /\ run_over_passes BAlg ex_cfg ex_thr (rpasses (Str "nt") None (SRaw (NtSyntax.nt_doc nt_ex)))
-     = Some (run_shapes BAlg ex_cfg ex_thr (nt_graph nt_ex))
+     = Some (run_shapes_cur BAlg ex_cfg ex_thr (nt_graph nt_ex))
   /\ run_over_passes BAlg ex_cfg ex_thr (rpasses (Str "nt") None (SFiles (map render_lines nt_lss)))
-     = Some (run_shapes BAlg ex_cfg ex_thr (nt_graph nt_ex))
-  /\ shapes_found (Some (run_shapes BAlg ex_cfg ex_thr (nt_graph nt_ex))) = [(Str "http://e/C", 2%nat)].
+     = Some (run_shapes_cur BAlg ex_cfg ex_thr (nt_graph nt_ex))
+  /\ shapes_found (Some (run_shapes_cur BAlg ex_cfg ex_thr (nt_graph nt_ex))) = [(Str "http://e/C", 2%nat)].
 Proof.
   split; [repeat constructor; vm_compute; reflexivity|].
   split; [apply lines_okb_ok; vm_compute; reflexivity|].
@@ -796,11 +848,11 @@ Example C08_turtle_iter_text_inhabited :
   /\ Forall line_ok (ttl_text_lines ttl_ex_lines)
   /\ exists G, TtlSyntax.sem ttl_ex = Some G /\ List.length G = 3%nat
      /\ run_over_passes BAlg ex_cfg ex_thr (rpasses (Str "turtle_iter") None (SRaw (TtlSyntax.render_doc ttl_ex_lines)))
-        = Some (run_shapes BAlg ex_cfg ex_thr G)
+        = Some (run_shapes_cur BAlg ex_cfg ex_thr G)
      /\ run_over_passes BAlg ex_cfg ex_thr
           (rpasses (Str "turtle_iter") None (SFile (render_lines (ttl_text_lines ttl_ex_lines))))
-        = Some (run_shapes BAlg ex_cfg ex_thr G)
-     /\ shapes_found (Some (run_shapes BAlg ex_cfg ex_thr G)) = [(Str "http://e/C", 2%nat)].
+        = Some (run_shapes_cur BAlg ex_cfg ex_thr G)
+     /\ shapes_found (Some (run_shapes_cur BAlg ex_cfg ex_thr G)) = [(Str "http://e/C", 2%nat)].
 Proof.
   split; [repeat split; vm_compute; reflexivity|]. split; [vm_compute; reflexivity|].
   split; [apply lines_okb_ok; vm_compute; reflexivity|].
